@@ -62,9 +62,8 @@ Fixpoint frag_risky (l : list stmt) : bool :=
 Definition known_K1 (c : case) : bool :=
   match c_frag c with Some f => frag_risky f | None => false end.
 
-(* K2: the whitespace/comment rewrite put a silent comment directly before or after a comparison
-   operator (== != < > <= >=): rsass then does not see the comparison *)
-Definition known_K2 (c : case) : bool := existsb (String.eqb "comment-at-comparison") (c_tags c).
+(* (class 2 - a silent comment next to a comparison operator - was fixed by bdd7c93; the tags stay in the
+   case record for the statistics) *)
 
 Definition b2z (b : bool) : Z := if b then 1%Z else 0%Z.
 
@@ -72,4 +71,4 @@ Definition b2z (b : bool) : Z := if b then 1%Z else 0%Z.
 Definition run (c : case) : list Z :=
   [ match c_pairs c with [] => 2%Z | l => b2z (pairs_ok l) end;
     b2z (same_output (c_base c) (c_rew c));
-    (if known_K1 c then 1 else if known_K2 c then 2 else 0)%Z ].
+    (if known_K1 c then 1 else 0)%Z ].
